@@ -225,6 +225,21 @@ func c01Random(c *caseCtx) {
 		o.profile = profTies
 	}
 	g := genRequest(c.rng, o)
+	switch c.rng.Intn(40) {
+	case 0:
+		// no criteria at all: if the request is accepted, the ranking is still well-formed
+		g.M["criteria"] = []interface{}{}
+		delete(g.M, "biases")
+		c.count("requests_without_criteria", 1)
+	case 1:
+		// nothing chosen, but a current choice: the heuristics still rank the current choice
+		if method == "majorityHeuristic" || method == "satisfactionHeuristic" {
+			g.M["choseToMake"] = []interface{}{}
+			g.M["methodParameters"].(M)["currentChoice"] = g.altIds[c.rng.Intn(len(g.altIds))]
+			g.chose = nil
+			c.count("requests_with_current_choice_only", 1)
+		}
+	}
 	d := decide(g.body(), false)
 	c01Observe(c, g, d, "")
 }
